@@ -302,6 +302,47 @@ func ntlmv1Case(password string, havePw bool, nt [16]byte, sc []byte, layout int
 	r.Nontrivial(tag)
 }
 
+// relatedThirds returns NT hashes in which one 7-byte third of the zero-padded
+// 21-byte key material repeats another, exactly or with one bit flipped
+// (pairs 1/2, 2/3, 1/3; the last third has only two free bytes).
+func relatedThirds(rng *rand.Rand, rounds int) [][16]byte {
+	var out [][16]byte
+	for round := 0; round < rounds; round++ {
+		for pair := 0; pair < 3; pair++ {
+			for bit := -1; bit < 56; bit++ {
+				var k [21]byte
+				copy(k[:], gen.Bytes(rng, 16))
+				a, b := 0, 7
+				switch pair {
+				case 1:
+					a, b = 7, 14
+				case 2:
+					a, b = 0, 14
+				}
+				if b == 14 {
+					// third 3 is hash[14:16] followed by five zero bytes
+					for j := 2; j < 7; j++ {
+						k[a+j] = 0
+					}
+					k[14], k[15] = k[a], k[a+1]
+					if bit >= 0 {
+						k[a+bit/8] ^= 0x80 >> (bit % 8)
+					}
+				} else {
+					copy(k[b:b+7], k[a:a+7])
+					if bit >= 0 {
+						k[b+bit/8] ^= 0x80 >> (bit % 8)
+					}
+				}
+				var nt [16]byte
+				copy(nt[:], k[:16])
+				out = append(out, nt)
+			}
+		}
+	}
+	return out
+}
+
 var fixedChallenges = [][]byte{
 	make([]byte, 8),
 	bytes.Repeat([]byte{0xFF}, 8),
@@ -346,10 +387,20 @@ func ntlmv1All() {
 			}
 		}
 	}
+	// hashes whose 7-byte thirds are equal or differ in exactly one of their 56 bits
+	// (each third is its own DES key; anything that remembers work per third must tell them apart)
+	for ri, nt := range relatedThirds(rng, 2) {
+		sc := fixedChallenges[ri%len(fixedChallenges)]
+		if ri%3 == 0 {
+			sc = gen.Bytes(rng, 8)
+		}
+		ntlmv1Case("", false, nt, sc, ri%3, callOrders[ri%len(callOrders)], fmt.Sprintf("v1|related-thirds|%d", ri%171))
+	}
 	r.Sample(map[string]any{"kind": "ntlmv1", "password": "Password", "server_challenge": "0123456789abcdef",
 		"nt_response": hx(expectNTv1(ref.NTHash("Password"), fixedChallenges[2])), "lm_response": hx(expectLMv1("Password", fixedChallenges[2]))})
 	// seeded remainder
 	n := r.Pick(40000, 1500000)
+	rtPool := relatedThirds(rng, 8)
 	for t := 0; t < n; t++ {
 		sc := gen.Bytes(rng, 8)
 		if rng.IntN(10) == 0 {
@@ -373,6 +424,9 @@ func ntlmv1All() {
 		} else {
 			var nt [16]byte
 			copy(nt[:], gen.Bytes(rng, 16))
+			if rng.IntN(8) == 0 {
+				nt = rtPool[rng.IntN(len(rtPool))]
+			}
 			layout := rng.IntN(3)
 			ntlmv1Case("", false, nt, sc, layout, order, fmt.Sprintf("v1|rndnt|%d|%x", layout, nt[:2]))
 		}
@@ -673,6 +727,10 @@ func authAll() {
 						var sc [8]byte
 						copy(sc[:], fixedChallenges[(i+k)%len(fixedChallenges)])
 						authCase(flags, ti, u, pw, d, "Workstation", sc, "fixed", "fixed")
+						if uni && k%2 == 1 {
+							// a server that echoes both character-set bits has chosen Unicode (MS-NLMP 2.2.2.5 A/B)
+							authCase(flags|fOEM, ti, u, pw, d, "Workstation", sc, "fixed", "fixed")
+						}
 					}
 					i++
 				}
@@ -717,6 +775,9 @@ func authAll() {
 		uni := rng.IntN(3) != 0
 		if uni {
 			flags |= fUnicode
+			if rng.IntN(5) == 0 {
+				flags |= fOEM
+			}
 		} else {
 			flags |= fOEM
 		}
